@@ -1016,11 +1016,15 @@ def vf6(ctx, c):
     repo = ctx.repo
     lf = repo.method(CLS, "list_files")
     wl = repo.loc(lf, lf.node)
+    from ..inline import flatten as _flat
+    lf_flat = _flat(repo, lf, depth=2, only={m_ for m_ in repo.cls(CLS).methods if m_ not in ("read_data", "seek_granule", "read_sequence", "calculate_file_length")})
     gate = None
-    for n in ast.walk(lf.node):
+    for n in ast.walk(lf_flat):
         if isinstance(n, ast.If) and n.body and isinstance(n.body[-1], ast.Raise) and "len(self.buffer)" in U(n.test) and isinstance(n.test, ast.Compare):
             gate = n
-    if gate is None:
+    if gate is None and ("len(self.buffer)" in U(lf_flat) or "IMAGE_SIZE" in U(lf_flat)):
+        c.undecided("list_files:size-gate", "size-test-shape-not-recognised", "", wl)
+    elif gate is None:
         c.finding("list_files:size-gate", "no size test", "DiskFile.list_files accepts a buffer of any size as a disk image (sniffing relies on it raising for short buffers)", wl)
     else:
         op = type(gate.test.ops[0]).__name__
